@@ -52,6 +52,14 @@ def gen_case(rng, tier):
         fam = rng.choice(["int", "float"])
         t["cols"][nm] = [rng.choice(NUMTEXT[fam]) for _ in range(t["nrow"])]
         t["textual"] = {nm: fam}
+    if reader in ("df_json", "lod_json") and rng.random() < 0.3 and t["nrow"]:
+        # JSON values may be objects themselves; their inner keys are data, not column names, even when they are spelled
+        # like one (a restriction of the columns must not reach into them).  (Arrays as values and nested GeoJSON
+        # properties are outside what the readers accept at all.)
+        nm = rng.choice(t["names"])
+        inner = rng.sample(["id", "make", "x", "ünï", "v w", "k", "lat"], 3)
+        t["cols"][nm] = [rng.choice([{inner[0]: i, inner[1]: "p", inner[2]: 0.5}, {inner[1]: {inner[2]: i, inner[0]: None}}, {inner[0]: i}, {}])
+                         for i in range(t["nrow"])]
     k = rng.randint(0, len(t["names"]))
     restrict = rng.sample(t["names"], k)
     if rng.random() < 0.2:
@@ -62,7 +70,7 @@ def gen_case(rng, tier):
         if restrict and len(restrict) < len(t["names"]) and rng.random() < 0.25:
             pool = [x for x in t["names"] if x not in restrict]      # the mapping names a column that is not read
         nm = rng.choice(pool)
-        numeric = nm in t["cols"] and t["nrow"] and (not isinstance(t["cols"][nm][0], str) or nm in t.get("textual", {}))
+        numeric = nm in t["cols"] and t["nrow"] and (isinstance(t["cols"][nm][0], (int, float)) or nm in t.get("textual", {}))
         if numeric:
             cast[nm] = rng.choice(["float", "str", "str"]) if reader in ("df_csv", "df_json", "df_parquet", "lod_csv", "lod_json") else "float"
     case = {"op": "read", "reader": reader, "table": t, "restrict": restrict, "cast": cast,
@@ -158,7 +166,7 @@ def canon(obj):
     import dataiter as di
     if isinstance(obj, di.DataFrame):
         return {k: [vecgen.canon_elem(x) if not isinstance(x, dict) else json.dumps(x, sort_keys=True) for x in v.tolist()] if not v.is_object()
-                else [json.dumps(x, sort_keys=True, default=str) for x in v] for k, v in obj.items()}
+                else [x if x is None or isinstance(x, (dict, list)) else vecgen.canon_elem(x) for x in v] for k, v in obj.items()}
     out = {}
     for i, item in enumerate(obj):
         for k, v in item.items():
